@@ -7,6 +7,8 @@ import (
 
 	"golang.org/x/text/encoding"
 	"golang.org/x/text/transform"
+
+	"github.com/hujm2023/go-sms-protocol/verifhook"
 )
 
 // ErrInvalidCharacter means a given character can not be represented in GSM 7-bit encoding.
@@ -87,6 +89,7 @@ func ValidateGSM7Buffer(buffer []byte) []byte {
 	invalidBytes := make([]byte, 0, 4)
 	count := 0
 	for count < len(buffer) {
+		verifhook.Tick("gsm7.ValidateGSM7Buffer")
 		b := buffer[count]
 		if b == EscapeSequence {
 			count++
@@ -170,6 +173,7 @@ func (g *gsm7Decoder) Transform(dst, src []byte, atEOF bool) (nDst, nSrc int, er
 		count := 0
 		remain := len(src) - count
 		for remain > 0 {
+			verifhook.Tick("gsm7.decoder.unpack")
 			// Unpack by converting octets into septets.
 			if remain >= 7 {
 				septets = append(septets, src[count+0]&0x7F<<0)
@@ -237,6 +241,7 @@ func (g *gsm7Decoder) Transform(dst, src []byte, atEOF bool) (nDst, nSrc int, er
 	}
 
 	for nSeptet < len(septets) {
+		verifhook.Tick("gsm7.decode")
 		b := septets[nSeptet]
 		if b == EscapeSequence {
 			nSeptet++
@@ -316,6 +321,7 @@ func (g *gsm7Encoder) Transform(dst, src []byte, atEOF bool) (nDst, nSrc int, er
 	nSeptet := 0
 	remain := len(septets) - nSeptet
 	for remain > 0 {
+		verifhook.Tick("gsm7.pack")
 		// Pack by converting septets into octets.
 		if remain >= 8 {
 			dst[nDst+0] = (septets[nSeptet+0] & 0x7F >> 0) | (septets[nSeptet+1] & 0x01 << 7)
@@ -421,6 +427,7 @@ func Pack(septets []byte) (dst []byte) {
 	nSeptet := 0
 	remain := len(septets) - nSeptet
 	for remain > 0 {
+		verifhook.Tick("gsm7.pack")
 		// Pack by converting septets into octets.
 		if remain >= 8 {
 			dst[nDst+0] = (septets[nSeptet+0] & 0x7F >> 0) | (septets[nSeptet+1] & 0x01 << 7)
@@ -506,6 +513,7 @@ func Unpack(src []byte) (septets []byte) {
 	count := 0
 	remain := len(src) - count
 	for remain > 0 {
+		verifhook.Tick("gsm7.Unpack")
 		// Unpack by converting octets into septets.
 		if remain >= 7 {
 			septets = append(septets, src[count+0]&0x7F<<0)
@@ -574,6 +582,7 @@ func Decode(septets []byte) (dst []byte, err error) {
 	builder := bytes.NewBufferString("")
 
 	for nSeptet < len(septets) {
+		verifhook.Tick("gsm7.decode")
 		b := septets[nSeptet]
 		if b == EscapeSequence {
 			nSeptet++
